@@ -410,7 +410,8 @@ class ElementWalker(object):
         This function handles stylesheets and icons in addition to
         standard scraping rules.
         '''
-        rel = element.attrib.get('rel', '')
+        # Link types are not case-sensitive.
+        rel = element.attrib.get('rel', '').lower()
         stylesheet = 'stylesheet' in rel
         icon = 'icon' in rel
         inline = stylesheet or icon
